@@ -125,11 +125,11 @@ deriving DecidableEq, Repr
 the instrumenter; `Tie/C02.lean` equates them with the regenerated source facts. -/
 def skeleton : Fn → List String
   | .writeBlock => ["os.MkdirAll", "v.os.TempFile", "io.Copy", "tmpfile.Close", "v.os.Remove",
-                    "tmpfile.Close", "v.os.Remove", "os.Chtimes", "v.os.Remove", "v.os.Rename",
-                    "v.os.Remove"]
+                    "tmpfile.Close", "v.os.Remove", "os.Chtimes", "v.os.Remove", "v.os.OpenFile",
+                    "v.lockfile", "v.os.Remove", "v.unlockfile", "v.os.Rename", "v.os.Remove"]
   | .touch => ["v.os.OpenFile", "v.lockfile", "v.unlockfile", "os.Chtimes"]
   | .trash => ["v.os.OpenFile", "v.lockfile", "v.unlockfile", "v.os.Stat", "v.os.Remove", "v.os.Rename"]
-  | .untrash => ["ioutil.ReadDir", "v.os.Rename"]
+  | .untrash => ["ioutil.ReadDir", "v.os.Rename", "os.Chtimes"]
   | .emptyTrash => ["v.os.Remove"]
   | .getFunc => ["v.os.Open", "ioutil.NopCloser"]
   | .stat => ["v.os.Stat"]
@@ -164,7 +164,7 @@ deriving DecidableEq, Repr
 /-- First failing system call of a `WriteBlock` run (`write i n`: the write of chunk `i` stores only
 its first `n` bytes and then fails). -/
 inductive WBFail where
-  | none | mkdir | createTemp | write (i n : Nat) | close | chtimes | rename
+  | none | mkdir | createTemp | write (i n : Nat) | close | chtimes | lockOld | rename
 deriving DecidableEq, Repr
 
 structure WBIn where
@@ -174,6 +174,7 @@ structure WBIn where
   rend : ReaderEnd         -- how the reader ended after these chunks
   fail : WBFail
   now : Nat
+  existing : Bool          -- a file exists at the block path when WriteBlock opens it to take its flock
 deriving Repr
 
 def wbPt (i : Nat) : Option Point := some ⟨.writeBlock, i⟩
@@ -183,6 +184,13 @@ def appends (p : Path) (cs : List Bytes) : List Ev := cs.map (fun c => ⟨none, 
 /-- mkdirAll, createTemp, the io.Copy point -/
 def wbPre (w : WBIn) : List Ev :=
   [⟨wbPt 0, .mkdirAll (blockDir w.h)⟩, ⟨wbPt 1, .createTemp (tmpPath w.h w.sfx) w.now⟩, ⟨wbPt 2, .nop⟩]
+
+/-- close, chtimes, then (fix 7e105eb) open the file that is about to be replaced and, if there is
+one, take its flock (released by the deferred unlock or by process death); none of these changes
+the map. -/
+def wbTail (w : WBIn) : List Ev :=
+  [⟨wbPt 5, .nop⟩, ⟨wbPt 7, .chtimes (tmpPath w.h w.sfx) w.now⟩, ⟨wbPt 9, .nop⟩] ++
+    (if w.existing then [⟨wbPt 10, .nop⟩, ⟨wbPt 12, .nop⟩] else [])
 
 /-- The events of one `WriteBlock` call and whether it returned nil. -/
 def writeBlockEvs (w : WBIn) : List Ev × Bool :=
@@ -196,10 +204,10 @@ def writeBlockEvs (w : WBIn) : List Ev × Bool :=
       [⟨none, .append tmp ((w.chunks.getD i []).take n)⟩, ⟨wbPt 3, .nop⟩, ⟨wbPt 4, .remove tmp⟩], false)
   | .close, .eof => (copied ++ [⟨wbPt 5, .nop⟩, ⟨wbPt 6, .remove tmp⟩], false)
   | .chtimes, .eof => (copied ++ [⟨wbPt 5, .nop⟩, ⟨wbPt 7, .nop⟩, ⟨wbPt 8, .remove tmp⟩], false)
-  | .rename, .eof =>
-    (copied ++ [⟨wbPt 5, .nop⟩, ⟨wbPt 7, .chtimes tmp w.now⟩, ⟨wbPt 9, .nop⟩, ⟨wbPt 10, .remove tmp⟩], false)
-  | .none, .eof =>
-    (copied ++ [⟨wbPt 5, .nop⟩, ⟨wbPt 7, .chtimes tmp w.now⟩, ⟨wbPt 9, .rename tmp (blockPath w.h)⟩], true)
+  | .lockOld, .eof =>
+    (copied ++ [⟨wbPt 5, .nop⟩, ⟨wbPt 7, .chtimes tmp w.now⟩, ⟨wbPt 9, .nop⟩, ⟨wbPt 10, .nop⟩, ⟨wbPt 11, .remove tmp⟩], false)
+  | .rename, .eof => (copied ++ wbTail w ++ [⟨wbPt 13, .nop⟩, ⟨wbPt 14, .remove tmp⟩], false)
+  | .none, .eof => (copied ++ wbTail w ++ [⟨wbPt 13, .rename tmp (blockPath w.h)⟩], true)
   | _, .err => (copied ++ [⟨wbPt 3, .nop⟩, ⟨wbPt 4, .remove tmp⟩], false)
 
 /-! ### Touch, Trash, Untrash, EmptyTrash -/
@@ -258,11 +266,12 @@ def dirNames (fs : FS) (d : Name) : List Name :=
   sortNames ((fs.files.filter (fun e => e.1.dir = d)).map (fun e => e.1.name))
 
 /-- `Untrash(h)`: the first directory entry (sorted) whose name starts with `<h>.trash.` is renamed
-onto the block path. -/
-def untrashEvs (fs : FS) (h : Name) : List Ev × Res :=
+onto the block path and (fix f7a86a4) given a current timestamp. -/
+def untrashEvs (fs : FS) (h : Name) (now : Nat) : List Ev × Res :=
   match (dirNames fs (blockDir h)).find? (fun n => (h ++ trashInfix).isPrefixOf n) with
   | none => ([⟨unPt 0, .nop⟩], .notFound)
-  | some n => ([⟨unPt 0, .nop⟩, ⟨unPt 1, .rename ⟨blockDir h, n⟩ (blockPath h)⟩], .ok)
+  | some n => ([⟨unPt 0, .nop⟩, ⟨unPt 1, .rename ⟨blockDir h, n⟩ (blockPath h)⟩,
+               ⟨unPt 2, .chtimes (blockPath h) now⟩], .ok)
 
 def pathLt (p q : Path) : Bool := nameLt p.dir q.dir || (p.dir = q.dir && nameLt p.name q.name)
 
@@ -449,7 +458,7 @@ inductive Op where
   | writeBlock (w : WBIn)
   | touch (h : Name) (now : Nat) (fail : Option Nat)
   | trash (cfg : Cfg) (h : Name)
-  | untrash (h : Name)
+  | untrash (h : Name) (now : Nat)
   | emptyTrash (now : Nat)
   | env (s : Step)
 deriving Repr
@@ -479,7 +488,7 @@ def Op.evs (hash : Bytes → Name) (fs : FS) : Op → List Ev
   | .writeBlock w => (writeBlockEvs w).1
   | .touch h now fail => if isBlockName h then (touchEvs fs h now fail).1 else []
   | .trash cfg h => if isBlockName h then (trashEvs fs cfg h).1 else []
-  | .untrash h => if isBlockName h then (untrashEvs fs h).1 else []
+  | .untrash h now => if isBlockName h then (untrashEvs fs h now).1 else []
   | .emptyTrash now => emptyTrashEvs fs now
   | .env s => [⟨none, s⟩]
 
